@@ -14,4 +14,4 @@ ln -s /repo/tests "$D/tests"
 cp /repo/pyproject.toml /repo/tox.ini "$D/" 2>/dev/null || true
 cd "$D"
 PYTHONPATH="$D" /venv/bin/python -c "import whatshap,sys; assert whatshap.__file__.startswith('$D'), whatshap.__file__"
-PYTHONPATH="$D" /venv/bin/python -m pytest -q -p no:cacheprovider --timeout=900 "$@" 2>&1 | tail -8
+PYTHONPATH="$D" /venv/bin/python -m pytest -q -p no:cacheprovider --timeout=900 "$@" 2>&1 | tail -40
